@@ -181,6 +181,10 @@ func (e *Engine) doCall(s *State, d deferred, in ssa.Instruction) []callOut {
 		}
 		return []callOut{{s, e.unknownCall(s, "func value "+c.Value.Name(), resT, d.args, in)}}
 	}
+	if strings.HasPrefix(fn.Synthetic, "bound method wrapper") && len(fn.Blocks) > 0 && len(e.inlineStack) < 4 {
+		// a method value (x.M): the wrapper just calls the method on its captured receiver
+		return e.inline(s, fn, d.args, binds, in, "bound:"+fn.Name())
+	}
 	own := fn.Pkg != nil && strings.HasPrefix(fn.Pkg.Pkg.Path(), e.P.ModPrefix) || (fn.Parent() != nil)
 	var key string
 	if own {
@@ -385,7 +389,7 @@ func (e *Engine) applyContract(s *State, ct *Contract, fn *ssa.Function, sig *ty
 		}
 	}
 	// recursion: the callee's measure at the call is below the caller's measure at entry
-	if fn != nil && s.top().Depth == 0 && e.P.SameSCC(e.Fn, fn) {
+	if fn != nil && s.top().Depth == 0 && e.P.SameSCC(e.Fn, fn) && !structuralMeasure(e.Contract) {
 		name := fmt.Sprintf("%s/rec-decreases#%d", base, ord)
 		switch {
 		case ct.Decreases == nil:
